@@ -1,1 +1,156 @@
-fn main() {}
+//! `etk-ha`: harness around etk-analyze (links z3).  Same line protocol as `etk-h`.
+use etk_analyze::cfg::ControlFlowGraph;
+use etk_asm::disasm::Disassembler;
+use etk_dasm::blocks::annotated::{AnnotatedBlock, Exit};
+use etk_dasm::blocks::basic::{BasicBlock, Separator};
+use std::io::{BufRead, Write};
+use std::panic;
+
+fn unhex(s: &str) -> Vec<u8> {
+    if s == "-" {
+        return Vec::new();
+    }
+    hex::decode(s).expect("bad hex in request")
+}
+
+fn blocks_of(bytes: &[u8]) -> Vec<BasicBlock> {
+    let mut d = Disassembler::new();
+    d.write_all(bytes).unwrap();
+    let mut sep = Separator::new();
+    sep.push_all(d.ops());
+    sep.take().into_iter().chain(sep.finish()).collect()
+}
+
+/// canonical form of petgraph's DOT output: node labels in index order, then the
+/// sorted list of edges by label
+fn canon_dot(dot: &str) -> String {
+    let mut labels: Vec<String> = Vec::new();
+    let mut edges: Vec<(usize, usize)> = Vec::new();
+    let mut bad = false;
+    for line in dot.lines() {
+        let l = line.trim();
+        if l.is_empty() || l == "digraph {" || l == "}" {
+            continue;
+        }
+        if let Some(p) = l.find(" -> ") {
+            let a: usize = l[..p].trim().parse().unwrap_or(usize::MAX);
+            let rest = &l[p + 4..];
+            let b: usize = rest.split(' ').next().unwrap().trim().parse().unwrap_or(usize::MAX);
+            if !rest.contains("label = \"\"") {
+                bad = true;
+            }
+            edges.push((a, b));
+        } else if let Some(p) = l.find(" [ label = \"") {
+            let idx: usize = l[..p].trim().parse().unwrap_or(usize::MAX);
+            let lab = &l[p + 12..];
+            let lab = &lab[..lab.rfind('"').unwrap_or(0)];
+            if idx != labels.len() {
+                bad = true;
+            }
+            labels.push(lab.replace(' ', "_"));
+        } else {
+            bad = true;
+        }
+    }
+    let mut es: Vec<String> = edges
+        .iter()
+        .map(|(a, b)| {
+            format!(
+                "{}>{}",
+                labels.get(*a).cloned().unwrap_or_else(|| "?".into()),
+                labels.get(*b).cloned().unwrap_or_else(|| "?".into())
+            )
+        })
+        .collect();
+    es.sort();
+    format!("{}nodes=[{}] edges=[{}]", if bad { "MALFORMED " } else { "" }, labels.join(","), es.join(","))
+}
+
+/// `cfg <hex>`: disassemble, separate, annotate, build, render; refine, render.
+fn cmd_cfg(args: &[&str]) -> String {
+    let bytes = unhex(args[0]);
+    let blocks = blocks_of(&bytes);
+    let ann = blocks.iter().map(AnnotatedBlock::annotate);
+    let mut cfg = ControlFlowGraph::new(ann);
+    let before = canon_dot(&cfg.render().to_string());
+    cfg.refine_shallow();
+    let after = canon_dot(&cfg.render().to_string());
+    format!("init {} refined {}", before, after)
+}
+
+#[cfg(feature = "hooks")]
+fn smt(e: &etk_dasm::sym::Expr) -> String {
+    etk_analyze::verif::expr_to_smt(e).split_whitespace().collect::<Vec<_>>().join(" ")
+}
+#[cfg(not(feature = "hooks"))]
+fn smt(_e: &etk_dasm::sym::Expr) -> String {
+    "no-hooks".into()
+}
+
+/// `smt <offset> <hex>`: the byte string as ONE block; SMT-LIB text of the terms
+/// built for its exit expressions (jump target; condition and target of a branch)
+/// and for every output stack expression.
+fn cmd_smt(args: &[&str]) -> String {
+    let offset: usize = args[0].parse().unwrap();
+    let bytes = unhex(args[1]);
+    let mut d = Disassembler::new();
+    d.write_all(&bytes).unwrap();
+    let ops: Vec<_> = d.ops().map(|o| o.item).collect();
+    if ops.is_empty() {
+        return "empty".into();
+    }
+    let a = AnnotatedBlock::annotate(&BasicBlock { offset, ops });
+    let mut out = Vec::new();
+    match &a.exit {
+        Exit::Unconditional(e) => out.push(format!("jump {}", smt(e))),
+        Exit::Branch { condition, when_true, .. } => {
+            out.push(format!("cond {}", smt(condition)));
+            out.push(format!("dest {}", smt(when_true)));
+        }
+        _ => {}
+    }
+    for e in a.outputs.stack.iter() {
+        out.push(format!("out {}", smt(e)));
+    }
+    out.join(" ; ")
+}
+
+fn dispatch(line: &str) -> String {
+    let mut it = line.split(' ');
+    let cmd = it.next().unwrap_or("");
+    let args: Vec<&str> = it.collect();
+    match cmd {
+        "cfg" => cmd_cfg(&args),
+        "smt" => cmd_smt(&args),
+        _ => format!("bad-op {}", cmd),
+    }
+}
+
+fn main() {
+    // Solver time limit per query: a query that runs into it answers `unknown`, which
+    // keeps the edge (refine_shallow only drops edges on `unsat`).
+    let ms = std::env::var("ETK_Z3_TIMEOUT_MS").unwrap_or_else(|_| "700".to_string());
+    unsafe {
+        let k = std::ffi::CString::new("timeout").unwrap();
+        let v = std::ffi::CString::new(ms).unwrap();
+        z3_sys::Z3_global_param_set(k.as_ptr(), v.as_ptr());
+    }
+    panic::set_hook(Box::new(|_| {}));
+    let stdin = std::io::stdin();
+    let stdout = std::io::stdout();
+    let mut out = std::io::BufWriter::new(stdout.lock());
+    for line in stdin.lock().lines() {
+        let line = line.unwrap();
+        let l = line.trim_end().to_string();
+        if l.is_empty() {
+            continue;
+        }
+        let r = panic::catch_unwind(|| dispatch(&l));
+        let reply = match r {
+            Ok(s) => s,
+            Err(_) => "panic".to_string(),
+        };
+        writeln!(out, "{}", reply).unwrap();
+        out.flush().unwrap();
+    }
+}
